@@ -190,11 +190,16 @@ class Expression(Node):
 
     """
 
-    def __init__(self, text, escapes, **kwargs):
+    def __init__(self, text, escapes, escapes_lineno=None, **kwargs):
         super().__init__(**kwargs)
         self.text = text
         self.escapes = escapes
-        self.escapes_code = ast.ArgumentList(escapes, **self.exception_kwargs)
+        escapes_kwargs = self.exception_kwargs
+        if escapes_lineno is not None:
+            # a syntax error in the filter list is on the line it is
+            # written on, which can be after the line of the "${"
+            escapes_kwargs = {**escapes_kwargs, "lineno": escapes_lineno}
+        self.escapes_code = ast.ArgumentList(escapes, **escapes_kwargs)
         self.code = ast.PythonCode(text, **self.exception_kwargs)
 
     def declared_identifiers(self):
